@@ -172,7 +172,7 @@ class G:
             elif k < 0.8 and not plus:
                 cnt = ln - off + r.choice([1, 2]) if cnt != -1 else -2
             elif not plus:
-                cnt = r.choice([-2, -3, -ln - 1])
+                cnt = r.choice([-2, -3, -ln - 2])                  # (never -1: that means "the rest")
             else:
                 off = ln + 1
         if plus:
